@@ -176,10 +176,14 @@ LiveConds(live, i, newheap, target) ==
 -----------------------------------------------------------------------------
 (* trace actions                                                            *)
 
+\* the public size constants behave as numbers inside a caller's expressions (n * POLYSEED_STR_SIZE sizes an array of
+\* phrase buffers): a macro that expands to an unparenthesised sum does not
 TStart ==
     /\ Ev.e = "Start"
-    /\ Advance
-    /\ UNCHANGED <<mask, deps, heap, blocks, call, skip, proj, issued, lastAuto>>
+    /\ OnVerdict(Verdict(<< Cond("public-size-constants-are-numbers", {"C17", "C14"},
+                                /\ Ev.strsize_x3 = 3 * Ev.strsize /\ Ev.strsize_rem7 = 1000 % Ev.strsize
+                                /\ Ev.size_x3 = 96 /\ Ev.numwords_x3 = 48 /\ Ev.strsizeof = Ev.strsize) >>),
+                 Advance /\ UNCHANGED <<mask, deps, heap, blocks, call, skip, proj, issued, lastAuto>>)
 
 TReset ==
     /\ Ev.e = "Reset"
